@@ -14,6 +14,7 @@ RULE = (
     "are encoded with the mappings batchie produced for a strict superset; negative cases corrupt such a mapping "
     "(drop a needed row, gap, shift, float ids) and must be rejected; 8% of the cases are names x doses designs of 1..300 names and 1..300 doses (condition counts across 2**7, 2**8, 2**15, 2**16; up to 300 samples / 260 plates), encoded plainly or under the full design's mapping; plain screens additionally go through up to three in-place plate merges (handles taken once). Non-trivial = both control kinds (by name and by "
     "dose) occur in one column, or arity != 2, or a strict-superset mapping is supplied, or a negative case, or a design case. distinct = distinct case JSON."
+    ' A quarter of the plain cases are built from read-only arrays (an in-place merge may then be refused; the screen is re-checked).'
 )
 ASSUMPTIONS = [
     "names contain no NUL character (numpy's '<U' dtype strips trailing NULs and pandas' string hashing truncates at NUL, so such names are not constructible screen inputs); no surrogates",
@@ -83,7 +84,7 @@ def _case(draw):
         return {"mode": "grid", "grid": draw(_grid(big=which == 0)), "superset": draw(st.booleans())}
     sc = draw(S.screen_case(min_rows=0, max_rows=14))
     mode = draw(st.sampled_from(["plain", "plain", "superset", "superset", "neg"]))
-    case = {"screen": sc, "mode": mode, "merges": draw(st.lists(st.tuples(st.integers(0, 9), st.integers(0, 9)), max_size=3))}
+    case = {"screen": sc, "mode": mode, "merges": draw(st.lists(st.tuples(st.integers(0, 9), st.integers(0, 9)), max_size=3)), "readonly": draw(st.integers(0, 3)) == 0}
     if mode != "plain":
         # extra rows from (mostly) the same pools: re-draw a screen with the same control/arity and reuse its rows
         extra = draw(S.screen_case(arity=sc["arity"], control=sc["control"], min_rows=0, max_rows=8))
@@ -221,7 +222,8 @@ def check_case(case):
     if not sc["rows"]:
         labels.append("empty")
     if mode == "plain":
-        s = S.build_screen(sc)
+        readonly = bool(case.get("readonly"))
+        s = S.build_screen(dict(sc, layout="readonly") if readonly else sc)
         both = _check_screen(s, sc)
         if both:
             labels.append("both-control-kinds-in-a-column")
@@ -244,14 +246,23 @@ def check_case(case):
         # dense 0..n-1 encoding of the CURRENT plate names (the plate mapping, which merge does not maintain, is not asserted)
         handles = list(s.plates)
         merged = 0
+        refused_merges = 0
         for a_, b_ in case.get("merges", []):
             if len(handles) < 2:
                 break
             pa, pb = handles[a_ % len(handles)], handles[b_ % len(handles)]
             if pa is pb:
                 continue
-            pa.merge(pb)
-            merged += 1
+            if readonly:
+                # arrays protected by the caller: an in-place merge may be refused (ValueError) - the screen then still is a screen
+                try:
+                    pa.merge(pb)
+                    merged += 1
+                except ValueError:
+                    refused_merges += 1
+            else:
+                pa.merge(pb)
+                merged += 1
             names_now = [str(x) for x in s.plate_names]
             ids_now = [int(x) for x in s.plate_ids]
             f = {}
@@ -265,7 +276,14 @@ def check_case(case):
                 require([names_now[r] for r in np.where(sel)[0]] == [nm] * int(sel.sum()) and int(sel.sum()) == names_now.count(nm), "plate.after_merge.get_plate", lambda: "get_plate(%d) does not select exactly the rows of plate %r" % (i, nm))
         if merged:
             labels.append("plate-merges")
-        return {"nontrivial": both or sc["arity"] != 2 or merged > 0, "labels": labels}
+        if refused_merges:
+            labels.append("merge-refused-on-read-only-arrays")
+            try:
+                _check_screen(s, sc)  # (no merge took place: the screen is the one that was constructed)
+            except Violation as v:
+                if merged == 0:
+                    raise Violation("after_refused_merge." + v.sub_check, "after a merge that was refused (read-only arrays): " + v.message)
+        return {"nontrivial": both or sc["arity"] != 2 or merged > 0 or refused_merges > 0, "labels": labels}
 
     sup_rows = sc["rows"] + case["extra"]
     sup = S.build_screen(dict(sc, observed=[]), rows=sup_rows)
